@@ -533,16 +533,21 @@ impl Client {
         b
     }
     fn body_client_info(&self, locale: &str, chat_mode: i32) -> Vec<u8> {
+        self.body_client_info_ord(locale, [chat_mode, 1, 0])
+    }
+
+    /// Client Information with the given ordinals for chat mode, main hand and particle status.
+    fn body_client_info_ord(&self, locale: &str, ord: [i32; 3]) -> Vec<u8> {
         let mut b = Vec::new();
         put_string(&mut b, locale);
         b.push(10);
-        put_varint(&mut b, chat_mode);
+        put_varint(&mut b, ord[0]);
         b.push(1);
         b.push(0x7f);
-        put_varint(&mut b, 1);
+        put_varint(&mut b, ord[1]);
         b.push(0);
         b.push(1);
-        put_varint(&mut b, 0);
+        put_varint(&mut b, ord[2]);
         b
     }
 
@@ -787,7 +792,14 @@ impl Client {
                 b
             }
             "shortBody" => body[..body.len().saturating_sub(2).min(body.len())].to_vec(),
-            "badOrdinal" => self.body_client_info("en_US", 3),
+            "badOrdinal" => {
+                // an ordinal outside the enumeration: just above it, far above, negative -- in any of the three enumerated settings
+                let bad = [3, -1, 100, i32::MIN, i32::MAX, -2][(self.var % 6) as usize];
+                let mut ord = [0, 1, 0];
+                ord[((self.var / 6) % 3) as usize] = bad;
+                self.var_note = format!("ordinal {} = {}", ["chat mode", "main hand", "particle status"][((self.var / 6) % 3) as usize], bad);
+                self.body_client_info_ord("en_US", ord)
+            }
             _ => body.clone(),
         };
         Action::Send(self.seal(frame(id, &body2)))
@@ -1558,6 +1570,9 @@ fn fanout_of(tr: &[Value], full: bool) -> u64 {
                     "fresh" | "justInside" | "otherPort" | "jar" => 3,
                     _ => 1,
                 });
+            }
+            if f["k"] == "Malformed" && f["class"] == "badOrdinal" {
+                n = n.max(18);
             }
             if f["k"] == "EncryptionResponse" {
                 n = n.max(match f["c"].as_str().unwrap_or("") {
